@@ -1,6 +1,6 @@
 import BctVerif.Lemmas.MeasuresBasic
 /-!
-# Equivariance of the whole-matrix-algebra measures (degree, density, clustering, transitivity)
+# Equivariance of the degree vectors used by rich club / assortativity, of `strengths_und_sign` and of the densities
 -/
 namespace Bct.Measures
 open Bct
@@ -22,9 +22,6 @@ theorem degTotal_perm (A : AMat Int n) : degTotal (permA σ A) = permVec σ (deg
 
 theorem strengthsUnd_perm (A : AMat Int n) : strengthsUnd (permA σ A) = permVec σ (strengthsUnd A) := by
   apply vec_ext; intro i; simp [strengthsUnd, colSum_perm]
-
-theorem strengthsDir_perm (A : AMat Int n) : strengthsDir (permA σ A) = permVec σ (strengthsDir A) := by
-  apply vec_ext; intro i; simp [strengthsDir, colSum_perm, rowSum_perm]
 
 theorem strengthsUndSign_perm (A : AMat Int n) :
     strengthsUndSign (permA σ A) =
@@ -122,52 +119,5 @@ theorem densityUnd_perm (A : AMat Int n) (hA : ∀ i j, A.get i j = A.get j i) :
   have h := triuLe_perm σ (fun i j => nz (A.get i j)) (fun i j => by simp only [hA i j])
   simp only [densityUnd, permA_get]
   rw [h]
-
-/-! ### clustering.py -/
-
-theorem clusteringBu_perm (G : AMat Int n) : clusteringBu (permA σ G) = permVec σ (clusteringBu G) := by
-  apply vec_ext; intro u
-  simp only [clusteringBu, vget_ofFn, permVec_get, permA_get]
-  have hk : (fsum fun v => nz (G.get (σ u) (σ v))) = fsum fun v => nz (G.get (σ u) v) :=
-    fsum_congr_perm σ _ _ (fun _ => rfl)
-  have hs : (fsum fun v => fsum fun w => if G.get (σ u) (σ v) ≠ 0 ∧ G.get (σ u) (σ w) ≠ 0 then G.get (σ v) (σ w) else 0) =
-      fsum fun v => fsum fun w => if G.get (σ u) v ≠ 0 ∧ G.get (σ u) w ≠ 0 then G.get v w else 0 :=
-    fsum2_congr_perm σ _ _ (fun _ _ => rfl)
-  rw [hk, hs]
-
-theorem cycD_perm (S Ae : AMat Int n) : cycD (permA σ S) (permA σ Ae) = permVec σ (cycD S Ae) := by
-  apply vec_ext; intro i
-  simp [cycD, mmul_perm, madd_perm, mtr_perm, rowSum_perm]
-
-theorem cycU_perm (R : AMat Int n) : cycU (permA σ R) = permVec σ (cycU R) := by
-  apply vec_ext; intro i
-  simp [cycU, mmul_perm, bin_perm, rowSum_perm]
-
-theorem clusteringBd_perm (A : AMat Int n) : clusteringBd (permA σ A) = permVec σ (clusteringBd A) := by
-  unfold clusteringBd; rw [mtr_perm, madd_perm, cycD_perm, permVec_map]
-
-theorem clusteringWd_perm (R : AMat Int n) : clusteringWd (permA σ R) = permVec σ (clusteringWd R) := by
-  unfold clusteringWd; rw [mtr_perm, madd_perm, bin_perm, cycD_perm, permVec_map]
-
-theorem clusteringWu_perm (R : AMat Int n) : clusteringWu (permA σ R) = permVec σ (clusteringWu R) := by
-  unfold clusteringWu; rw [cycU_perm, permVec_map]
-
-theorem vsum1_perm (v : Vector (Rat × Rat) n) : vsum1 (permVec σ v) = vsum1 v := by
-  unfold vsum1; exact fsum_congr_perm σ _ _ (fun i => by simp)
-
-theorem vsum2_perm (v : Vector (Rat × Rat) n) : vsum2 (permVec σ v) = vsum2 v := by
-  unfold vsum2; exact fsum_congr_perm σ _ _ (fun i => by simp)
-
-theorem transitivityBu_perm (A : AMat Int n) : transitivityBu (permA σ A) = transitivityBu A := by
-  simp [transitivityBu, mmul_perm, trace_perm, total_perm]
-
-theorem transitivityBd_perm (A : AMat Int n) : transitivityBd (permA σ A) = transitivityBd A := by
-  simp only [transitivityBd]; rw [mtr_perm, madd_perm, cycD_perm, vsum1_perm, vsum2_perm]
-
-theorem transitivityWd_perm (R : AMat Int n) : transitivityWd (permA σ R) = transitivityWd R := by
-  simp only [transitivityWd]; rw [mtr_perm, madd_perm, bin_perm, cycD_perm, vsum1_perm, vsum2_perm]
-
-theorem transitivityWu_perm (R : AMat Int n) : transitivityWu (permA σ R) = transitivityWu R := by
-  simp only [transitivityWu]; rw [cycU_perm, vsum1_perm, vsum2_perm]
 
 end Bct.Measures
